@@ -1,7 +1,7 @@
 """C01 -- each halo row indexes exactly its own subsample particles (index-arithmetic skeleton)."""
 import ast
 
-from ..core.srcmodel import clone, dotted, unparse, walk_no_nested, AnalysisError, names_in, stores_in, fold_str
+from ..core.srcmodel import clone, dotted, unparse, walk_no_nested, AnalysisError, names_in, stores_in, fold_str, single_defs, expand_names
 from ..core.strexec import KeyCollector
 from ..core.kernels import analyse
 from ..spec.contracts import CONTRACTS
@@ -191,8 +191,8 @@ def call_site(chk):
             chk.check(not problems, 'C01-R3', CAT, q, f'cleaned={cleaned},{AB}: read offsets/lengths <-> index columns of this file\'s halos; write offsets = new[off[i] : off[i+1] + 1]',
                       '', '; '.join(problems)[:700] + ': particles would be read with another halo\'s (or subsample\'s) range', node=I, nf=sorted(got_all.get('rv', {}).items())[:6])
     txt = [unparse(s) for s in walk_no_nested(fn) if isinstance(s, ast.stmt)]
-    okoff = 'halo_file_offsets = np.empty(len(N_halo_per_file) + 1, dtype=np.uint64)' in txt and \
-        'util.cumsum(N_halo_per_file, halo_file_offsets, initial=True, final=True)' in txt
+    from ..core.idioms import offsets_table
+    okoff = offsets_table(fn, 'halo_file_offsets', 'N_halo_per_file')
     chk.check(okoff, 'C01-R3', CAT, q, 'file row ranges = prefix sums of the per-file halo counts', '', 'halo_file_offsets is no longer the prefix sum of the per-file counts', node=fn)
     # the rv kernel decodes into the subsample table's own columns; the pid kernel receives every PID field column
     pf = [s for s in walk_no_nested(I) if isinstance(s, ast.For) and unparse(s.iter) == 'bitpacked.PID_FIELDS']
@@ -235,8 +235,12 @@ def call_site(chk):
     chk.check(okla and oklc, 'C01-R8', CAT, CLS + '_setup_load_subsamples', 'samples listed in the order A, B', '', 'load_AB is no longer built in the order A then B', node=sl)
     # R9
     lc = src.func(CAT, CLS + '_load_halo_lc_subsamples')
-    t = [unparse(s) for s in walk_no_nested(lc) if isinstance(s, ast.stmt)]
-    ok9 = 'self.subsamples.add_column(af[self.data_key][w][:], name=w, copy=False)' in t and "fn = Path(self.groupdir) / 'lc_pid_rv.asdf'" in t and \
+    ldefs = single_defs(lc)
+    t = [unparse(expand_names(s, ldefs)) for s in walk_no_nested(lc) if isinstance(s, (ast.Expr, ast.Assign, ast.AugAssign))]
+    withs = [n for n in walk_no_nested(lc) if isinstance(n, ast.With)]
+    opened = [unparse(expand_names(w.items[0].context_expr, ldefs)) for w in withs]
+    ok9 = 'self.subsamples.add_column(af[self.data_key][w][:], name=w, copy=False)' in t and \
+        opened == ["asdf.open(Path(self.groupdir) / 'lc_pid_rv.asdf', lazy_load=True, memmap=False)"] and \
         not any('npstart' in x or 'npout' in x for x in t)
     chk.check(ok9, 'C01-R9', CAT, CLS + '_load_halo_lc_subsamples', 'columns of lc_pid_rv.asdf added unmodified; index columns untouched', '',
               'light-cone subsamples are no longer the unmodified columns of the single file', node=lc)
@@ -245,17 +249,61 @@ def call_site(chk):
     # must be refused when subsamples are requested, otherwise every later file's halos get slices of the first directory's particles
     sfp = src.func(CAT, CLS + '_setup_file_paths')
     waived = any(isinstance(n, ast.If) and 'halo_lc' in unparse(n.test) and any(isinstance(x, ast.Raise) for x in ast.walk(n)) for n in walk_no_nested(sfp))
-    refuse = []
-    for n in walk_no_nested(lc):
-        if isinstance(n, ast.For) and unparse(n.iter) in ('self.halo_fns',):
-            for x in ast.walk(n):
-                if isinstance(x, ast.If) and any(isinstance(r, ast.Raise) for r in x.body) and 'parent' in unparse(x.test) and 'groupdir' in unparse(x.test):
-                    refuse.append(x)
-    before_load = bool(refuse) and all(r.lineno < min([n.lineno for n in walk_no_nested(lc) if isinstance(n, ast.With)] or [10**9]) for r in refuse)
+    refuse = [r for r in _foreign_dir_refusals(lc, ldefs)]
+    before_load = bool(refuse) and all(r.lineno < min([n.lineno for n in withs] or [10**9]) for r in refuse)
     chk.check((not waived) or before_load, 'C01-R9', CAT, CLS + '_load_halo_lc_subsamples',
               'light cone: halo files from another directory than the particle file are refused before the particle file is read', '',
               'a list of light-cone halo files from several directories is accepted (the mixed-catalog test is waived for light cones) while only '
               '<first directory>/lc_pid_rv.asdf is loaded: halos of the later files are given slices of the first directory\'s particles', node=lc, nontrivial=False)
+
+
+def _foreign_dir_refusals(lc, ldefs):
+    """If-statements of the light-cone subsample loader that raise when SOME listed halo file lies outside self.groupdir.  Accepted
+    spellings of "some file is foreign" (after replacing single-assignment locals by their values):
+       for h in self.halo_fns: if FOREIGN(h): raise          |  if any(FOREIGN(h) for h in self.halo_fns): raise
+       if next((h for h in self.halo_fns if FOREIGN(h)), None) is not None: raise   |  if not all(HOME(h) for h in self.halo_fns): raise
+    with FOREIGN(h) = Path(h).parent != Path(self.groupdir) and HOME its negation; the guard may only be conjoined with `which`."""
+    def foreign(test, h, want_ne=True):
+        if isinstance(test, ast.Compare) and len(test.ops) == 1 and isinstance(test.ops[0], ast.NotEq if want_ne else ast.Eq):
+            sides = {unparse(test.left), unparse(test.comparators[0])}
+            return sides == {f'Path({h}).parent', 'Path(self.groupdir)'}
+        return False
+
+    def gen_over_files(g):
+        return isinstance(g, (ast.GeneratorExp, ast.ListComp)) and len(g.generators) == 1 and unparse(g.generators[0].iter) == 'self.halo_fns' \
+            and isinstance(g.generators[0].target, ast.Name)
+
+    def some_foreign(test):
+        test = expand_names(test, ldefs)
+        if isinstance(test, ast.BoolOp) and isinstance(test.op, ast.And):
+            rest = [v for v in test.values if unparse(v) != 'which']
+            return len(rest) == 1 and some_foreign(rest[0])
+        if isinstance(test, ast.Call) and dotted(test.func) == 'any' and len(test.args) == 1 and gen_over_files(test.args[0]):
+            g = test.args[0]
+            return not g.generators[0].ifs and foreign(g.elt, g.generators[0].target.id)
+        if isinstance(test, ast.UnaryOp) and isinstance(test.op, ast.Not) and isinstance(test.operand, ast.Call) and dotted(test.operand.func) == 'all' \
+                and len(test.operand.args) == 1 and gen_over_files(test.operand.args[0]):
+            g = test.operand.args[0]
+            return not g.generators[0].ifs and foreign(g.elt, g.generators[0].target.id, want_ne=False)
+        if isinstance(test, ast.Compare) and len(test.ops) == 1 and isinstance(test.ops[0], ast.IsNot) and unparse(test.comparators[0]) == 'None':
+            c = test.left
+            if isinstance(c, ast.Call) and dotted(c.func) == 'next' and len(c.args) == 2 and unparse(c.args[1]) == 'None' and gen_over_files(c.args[0]):
+                g = c.args[0]
+                h = g.generators[0].target.id
+                return unparse(g.elt) == h and len(g.generators[0].ifs) == 1 and foreign(expand_names(g.generators[0].ifs[0], ldefs), h)
+        return False
+
+    def raises(body):
+        return any(isinstance(r, ast.Raise) for r in body)
+    out = []
+    for n in walk_no_nested(lc):
+        if isinstance(n, ast.For) and unparse(n.iter) == 'self.halo_fns' and isinstance(n.target, ast.Name):
+            for x in n.body:
+                if isinstance(x, ast.If) and raises(x.body) and foreign(expand_names(x.test, ldefs), n.target.id):
+                    out.append(x)
+        elif isinstance(n, ast.If) and raises(n.body) and some_foreign(n.test):
+            out.append(n)
+    return out
 
 
 def _guard(s):
